@@ -190,6 +190,7 @@ static int Dtool_SequenceWrapper_contains(PyObject *self, PyObject *value) {
     PyObject *item = wrap->_getitem_func(wrap->_base._self, index);
     if (item != nullptr) {
       int cmp = PyObject_RichCompareBool(item, value, Py_EQ);
+      Py_DECREF(item);
       if (cmp > 0) {
         return 1;
       }
@@ -221,6 +222,7 @@ static PyObject *Dtool_SequenceWrapper_index(PyObject *self, PyObject *value) {
     PyObject *item = wrap->_getitem_func(wrap->_base._self, index);
     if (item != nullptr) {
       int cmp = PyObject_RichCompareBool(item, value, Py_EQ);
+      Py_DECREF(item);
       if (cmp > 0) {
         return Dtool_WrapValue(index);
       }
@@ -258,6 +260,7 @@ static PyObject *Dtool_SequenceWrapper_count(PyObject *self, PyObject *value) {
       return nullptr;
     }
     int cmp = PyObject_RichCompareBool(item, value, Py_EQ);
+    Py_DECREF(item);
     if (cmp > 0) {
       ++count;
     }
@@ -332,6 +335,7 @@ static PyObject *Dtool_MutableSequenceWrapper_remove(PyObject *self, PyObject *v
     PyObject *item = wrap->_getitem_func(wrap->_base._self, index);
     if (item != nullptr) {
       int cmp = PyObject_RichCompareBool(item, value, Py_EQ);
+      Py_DECREF(item);
       if (cmp > 0) {
         if (wrap->_setitem_func(wrap->_base._self, index, nullptr) == 0) {
           return Py_NewRef(Py_None);
